@@ -347,6 +347,7 @@ def run(args):
     hf = []
     try:
         cases = [(args.seed, i, tmpdir) for i in range(n)]
+        cases = core.replay_cases(args, cases, lambda sd, i: (sd, i, tmpdir))
         B = 6
         batches = [cases[k:k + B] for k in range(0, len(cases), B)]
         for _, b, results in core.forkmap(lambda bb: [run_case(c) for c in bb], batches, isolated=False):
@@ -359,6 +360,8 @@ def run(args):
                 for key, what, replay in r.get('viol', []):
                     chk.violation(key, what, dict(replay, case=c[:2]))
         fcases = [(p, sw, tmpdir) for p, sw in repo_files()]
+        if args.replay and args.replay_case is not None:
+            fcases = []
         for _, c, r in core.forkmap(file_case, fcases, isolated=True, timeout=300):
             chk.evaluations += 1
             if core.is_harness_failure(r) or '_exception' in r:
